@@ -408,7 +408,7 @@ func TestExhaustiveSmall(t *testing.T) {
 	var cfgs []cfg
 	lim := 3500 // quick: configurations with more schedules than this are reported as sampled, not exhaustive
 	if rec.Thorough() {
-		lim = 400000
+		lim = 100000
 	}
 	for _, w := range []int{1, 2} {
 		for _, count := range []int{0, 1, 2} {
@@ -419,11 +419,11 @@ func TestExhaustiveSmall(t *testing.T) {
 	cfgs = append(cfgs, cfg{Case{Workers: 1, Calls: []Call{{Count: 1}, {Count: 1}}}, lim})
 	cfgs = append(cfgs, cfg{Case{Workers: 1, Calls: []Call{{Search: true, Count: 1}, {Count: 1}}}, lim})
 	if rec.Thorough() {
-		cfgs = append(cfgs, cfg{Case{Workers: 2, Calls: []Call{{Count: 3}}}, 150000})
-		cfgs = append(cfgs, cfg{Case{Workers: 2, Calls: []Call{{Search: true, Count: 3}}}, 150000})
-		cfgs = append(cfgs, cfg{Case{Workers: 2, Calls: []Call{{Count: 1}, {Count: 1}}}, 150000})
-		cfgs = append(cfgs, cfg{Case{Workers: 3, Calls: []Call{{Count: 2}}}, 150000})
-		cfgs = append(cfgs, cfg{Case{Workers: 2, Calls: []Call{{Search: true, Count: 1, Succ: []bool{false, true}}}}, 150000})
+		cfgs = append(cfgs, cfg{Case{Workers: 2, Calls: []Call{{Count: 3}}}, 40000})
+		cfgs = append(cfgs, cfg{Case{Workers: 2, Calls: []Call{{Search: true, Count: 3}}}, 40000})
+		cfgs = append(cfgs, cfg{Case{Workers: 2, Calls: []Call{{Count: 1}, {Count: 1}}}, 40000})
+		cfgs = append(cfgs, cfg{Case{Workers: 3, Calls: []Call{{Count: 2}}}, 40000})
+		cfgs = append(cfgs, cfg{Case{Workers: 2, Calls: []Call{{Search: true, Count: 1, Succ: []bool{false, true}}}}, 40000})
 	}
 	for i, x := range cfgs {
 		if !rec.Mine(i) {
